@@ -4,6 +4,13 @@
 //! numerals / huge declared counts (C05, C06), single-token corruptions with known position (C08),
 //! faults (C04), line sources (C09); `scale`: documents in which every size-like dimension goes
 //! beyond 2^20 (see the section at the end of this file).
+//! Two dimensions run through `huge`, `mutate` and `corrupt`: groups of two or three counts that
+//! are fine one by one and whose SUM sits at / next to / beyond a limit (`wrap_tuple`: header
+//! fields, justice sizes, numbers of one line, gate deltas; in `corrupt` with the place where the
+//! text must be refused, computed by plain arithmetic), and junk tokens that are a run of one byte
+//! value of every class with lengths around the small constants of the source (`junk_run`).
+//! Line-source cases walk the sections in every way (`ls_mode`: all items, none, a subset of the
+//! sections, only the first few items of a section).
 use crate::common::*;
 use crate::eng_aiger::{write_real, Case, Circ};
 
@@ -300,6 +307,90 @@ const BAD_UTF8: &[&[u8]] = &[
     b"\xf0\x90\x8c\x28", b"ok\xe2\x82\xacok", b"a\xcc\x81",
 ];
 
+/// Numbers that are harmless one by one and whose sum (hence some partial sum, in some order) lands
+/// exactly at, next to or beyond a boundary: `limits` are inclusive limits the caller knows of
+/// (`usize::MAX`, the maximum variable index, the type's largest code …); the sum is
+/// `limit + 1 + {-2, -1, 0, 1, small, anything below 2^16}`, also around 2^63 / 2^32 / 2^16 / 2^8.
+/// Every part is at most `u64::MAX` (a numeral the scanner accepts), parts may be 0, 1, a half, the
+/// smallest / largest value that still leaves the others in range.
+pub fn wrap_tuple(rng: &mut Rng, k: usize, limits: &[u128]) -> Vec<u128> {
+    let cap = u64::MAX as u128;
+    let limit: u128 = match rng.below(8) {
+        0 => (1u128 << *rng.pick(&[63u32, 32, 16, 8])) - 1,
+        1 | 2 => cap,
+        _ => *rng.pick(limits),
+    };
+    let t: u128 = match rng.below(8) {
+        0 => limit.saturating_sub(1),
+        1 => limit,
+        2 | 3 => limit + 1,
+        4 => limit + 2,
+        5 => limit + 1 + rng.range(2, 9) as u128,
+        6 => limit + 1 + rng.below(1 << 16) as u128,
+        _ => limit + 1 + (rng.next() as u128) % (limit + 1),
+    }
+    .min(k as u128 * cap);
+    let mut parts: Vec<u128> = vec![];
+    let mut rest = t;
+    for i in 0..k - 1 {
+        let after = (k - 1 - i) as u128;
+        let lo = rest.saturating_sub(after * cap);
+        let hi = rest.min(cap);
+        let c = [lo, hi, lo + 1, hi.saturating_sub(1), rest / 2, rest / (after + 1), 1, 2, rng.below(9) as u128, 1u128 << 63,
+            lo + (rng.next() as u128) % (hi - lo + 1)];
+        let fit: Vec<u128> = c.iter().copied().filter(|x| *x >= lo && *x <= hi).collect();
+        let a = *rng.pick(&fit);
+        parts.push(a);
+        rest -= a;
+    }
+    parts.push(rest);
+    if rng.chance(1, 2) {
+        for i in (1..parts.len()).rev() {
+            let j = rng.below(i as u64 + 1) as usize;
+            parts.swap(i, j);
+        }
+    }
+    parts
+}
+
+/// A junk token: a run of ONE byte value — any of the 256, weighted to UTF-8 continuation bytes
+/// (0x80..=0xbf), lead bytes (0xc0..), 0xff and 0x00 — whose length is 1..200 or sits around a small
+/// integer constant of the current source (`c-1, c, c+1, c+4, 2c` for every constant up to 4096):
+/// code that walks over, copies or cuts "the offending token" sees every length next to its own
+/// limits with bytes of every class.
+pub fn junk_run(rng: &mut Rng) -> Vec<u8> {
+    let b: u8 = match rng.below(10) {
+        0..=2 => rng.range(0x80, 0xbf) as u8,
+        3 | 4 => rng.range(0xc0, 0xff) as u8,
+        5 => 0xff,
+        6 => 0x00,
+        _ => rng.below(256) as u8,
+    };
+    let n = if rng.chance(1, 3) { rng.range(1, 200) } else {
+        let cs: Vec<u64> = source_consts().into_iter().filter(|c| *c >= 1 && *c <= 4096).collect();
+        if cs.is_empty() { rng.range(1, 200) } else {
+            let c = *rng.pick(&cs);
+            match rng.below(5) { 0 => c - 1, 1 => c, 2 => c + 1, 3 => c + 4, _ => 2 * c }.max(1)
+        }
+    };
+    vec![b; n as usize]
+}
+
+/// Where a header `aag|aig M I L O A [B C J F]` with these field values is refused: the index of
+/// the first field that exceeds its limit (M: the literal type's; I, L, A: what is left of M; the
+/// other counts: `usize`).  Plain arithmetic on unbounded numbers.
+fn header_violation(f: &[u128], mmax: u64) -> Option<usize> {
+    let mut left: u128 = 0;
+    for (i, v) in f.iter().enumerate() {
+        match i {
+            0 => { if *v > mmax as u128 { return Some(0); } left = *v; }
+            1 | 2 | 4 => { if *v > left { return Some(i); } left -= *v; }
+            _ => { if *v > u64::MAX as u128 { return Some(i); } }
+        }
+    }
+    None
+}
+
 fn numeral_spans(b: &[u8]) -> Vec<(usize, usize)> {
     let mut v = vec![];
     let mut i = 0;
@@ -326,7 +417,7 @@ pub fn mutate(rng: &mut Rng, mut b: Vec<u8>) -> Vec<u8> {
     }
     let n = rng.range(1, 3);
     for _ in 0..n {
-        match rng.below(11) {
+        match rng.below(14) {
             0 if !b.is_empty() => { let i = rng.below(b.len() as u64) as usize; b[i] ^= 1 << rng.below(8); }
             1 if !b.is_empty() => { let i = rng.below(b.len() as u64) as usize; b.remove(i); }
             2 => { let i = rng.below(b.len() as u64 + 1) as usize; b.insert(i, *rng.pick(b" \n\t\r0129acijx\x80\xff\x00")); }
@@ -367,6 +458,50 @@ pub fn mutate(rng: &mut Rng, mut b: Vec<u8>) -> Vec<u8> {
                 };
                 b.splice(i..i, x);
             }
+            10 | 11 => {
+                // two or three numerals (neighbours: the fields of one header, the sizes of one
+                // section, the numbers of one line; or anywhere) whose sum wraps
+                let sp = numeral_spans(&b);
+                let k = rng.range(2, 3) as usize;
+                if sp.len() >= k {
+                    let idx: Vec<usize> = if rng.chance(3, 4) {
+                        let i = rng.below((sp.len() - k + 1) as u64) as usize;
+                        (i..i + k).collect()
+                    } else {
+                        let mut v: Vec<usize> = (0..sp.len()).collect();
+                        for i in (1..v.len()).rev() { let j = rng.below(i as u64 + 1) as usize; v.swap(i, j); }
+                        v.truncate(k);
+                        v.sort();
+                        v
+                    };
+                    let first: u128 = std::str::from_utf8(&b[sp[0].0..sp[0].1]).ok().and_then(|t| t.parse().ok()).unwrap_or(0);
+                    let t = wrap_tuple(rng, k, &[u64::MAX as u128, first, 2 * first + 1]);
+                    for (j, i) in idx.iter().enumerate().rev() {
+                        let (s0, e0) = sp[*i];
+                        b.splice(s0..e0, t[j].to_string().into_bytes());
+                    }
+                }
+            }
+            12 => {
+                // a junk token (a run of one byte value): in place of a numeral, at the start or the
+                // end of a line, anywhere
+                let run = junk_run(rng);
+                let sp = numeral_spans(&b);
+                match rng.below(4) {
+                    0 if !sp.is_empty() => { let (s0, e0) = *rng.pick(&sp); b.splice(s0..e0, run); }
+                    1 => {
+                        let starts: Vec<usize> = std::iter::once(0).chain(b.iter().enumerate().filter(|(_, c)| **c == b'\n').map(|(i, _)| i + 1)).collect();
+                        let at = *rng.pick(&starts);
+                        b.splice(at..at, run);
+                    }
+                    2 => {
+                        let ends: Vec<usize> = b.iter().enumerate().filter(|(_, c)| **c == b'\n').map(|(i, _)| i).chain(std::iter::once(b.len())).collect();
+                        let at = *rng.pick(&ends);
+                        b.splice(at..at, run);
+                    }
+                    _ => { let at = rng.below(b.len() as u64 + 1) as usize; b.splice(at..at, run); }
+                }
+            }
             _ => { let tails: &[&[u8]] = &[b"\n", b"c\n", b"c\nx", b"i0 x\n", b"c", b"\n\n"]; b.extend_from_slice(*rng.pick(tails)); }
         }
     }
@@ -384,7 +519,78 @@ fn arbitrary(rng: &mut Rng, bin: bool) -> Vec<u8> {
     b
 }
 
+/// Declared counts that are harmless one by one and wrap when added up: in two or three fields of
+/// the header (any of M I L O A B C J F), as the sizes of the justice properties (followed by no
+/// literal, a few, or exactly as many as the wrapped sum), as the numbers of a latch / gate line or
+/// the deltas of a binary gate.
+fn huge_sums(rng: &mut Rng, bin: bool, maxcode: u64) -> Vec<u8> {
+    let mmax = (maxcode - 1) / 2;
+    let magic = if bin { "aig" } else { "aag" };
+    let lim = [u64::MAX as u128, mmax as u128, maxcode as u128];
+    let k = rng.range(2, 3) as usize;
+    let lit_lines = |rng: &mut Rng, b: &mut Vec<u8>, n: u64, m: u64| {
+        for _ in 0..n { b.extend_from_slice(format!("{}\n", rng.below(2 * m.min(3) + 2)).as_bytes()); }
+    };
+    match rng.below(4) {
+        0 => {
+            // header fields
+            let nf = rng.range(5, 9) as usize;
+            let mut f: Vec<u128> = vec![0; nf];
+            f[0] = *rng.pick(&[mmax as u128, mmax as u128, 0, 1, 3]);
+            let t = wrap_tuple(rng, k, &[lim[0], f[0], lim[1], lim[2]]);
+            let mut pos: Vec<usize> = (0..nf).collect();
+            for i in (1..pos.len()).rev() { let j = rng.below(i as u64 + 1) as usize; pos.swap(i, j); }
+            // mostly not the M field: the other limits depend on it
+            if pos[..k].contains(&0) && rng.chance(3, 4) { pos.retain(|p| *p != 0); }
+            pos.truncate(k);
+            if rng.chance(1, 2) { pos.sort(); }
+            for (p, v) in pos.iter().zip(t.iter()) { f[*p] = *v; }
+            let mut b = format!("{} {}\n", magic, f.iter().map(|x| x.to_string()).collect::<Vec<_>>().join(" ")).into_bytes();
+            let n = rng.below(4);
+            lit_lines(rng, &mut b, n, f[0].min(3) as u64);
+            b
+        }
+        1 | 2 => {
+            // justice sizes: J properties, the tuple somewhere among their sizes
+            let m = *rng.pick(&[0u64, 1, 3, mmax]);
+            let extra = rng.below(3) as usize;
+            let t = wrap_tuple(rng, k, &[lim[0], lim[0], lim[1], lim[2]]);
+            let mut sizes: Vec<u128> = t.clone();
+            for _ in 0..extra {
+                let at = rng.below(sizes.len() as u64 + 1) as usize;
+                sizes.insert(at, rng.below(3) as u128);
+            }
+            let nf = rng.below(3);
+            let mut b = format!("{} {} 0 0 0 0 0 0 {}{}\n", magic, m, sizes.len(), if nf > 0 || rng.chance(1, 2) { format!(" {}", nf) } else { String::new() }).into_bytes();
+            for x in &sizes { b.extend_from_slice(format!("{}\n", x).as_bytes()); }
+            let total: u128 = sizes.iter().sum();
+            let wrapped = (total % (1u128 << 64)) as u64;
+            let n = match rng.below(4) {
+                0 => 0,
+                1 | 2 if wrapped <= 64 => wrapped + nf,
+                _ => rng.below(6),
+            };
+            lit_lines(rng, &mut b, n, m);
+            if rng.chance(1, 4) { b.extend_from_slice(b"c\n"); }
+            b
+        }
+        _ => {
+            // one latch or gate whose numbers / deltas are the tuple
+            let t = wrap_tuple(rng, k, &[lim[0], lim[2], lim[2], 2 * mmax as u128]);
+            let latch = rng.chance(1, 2);
+            let mut b = format!("{} {} {} {} 0 {}\n", magic, mmax, if bin { mmax - 1 } else { 0 }, latch as u8, !latch as u8).into_bytes();
+            if bin && !latch {
+                for x in &t { b.extend_from_slice(&varint(*x, 0)); }
+            } else {
+                b.extend_from_slice(format!("{}\n", t.iter().map(|x| x.to_string()).collect::<Vec<_>>().join(" ")).as_bytes());
+            }
+            b
+        }
+    }
+}
+
 fn huge(rng: &mut Rng, bin: bool, maxcode: u64) -> Vec<u8> {
+    if rng.chance(2, 5) { return huge_sums(rng, bin, maxcode); }
     let big = ["18446744073709551615", "18446744073709551614", "9223372036854775807", "9223372036854775806",
         "1099511627776", "4294967296", "1000000000", "16777216"];
     let mmax = (maxcode - 1) / 2;
@@ -407,6 +613,25 @@ fn huge(rng: &mut Rng, bin: bool, maxcode: u64) -> Vec<u8> {
     let body: &[&[u8]] = &[b"", b"0\n", b"2\n", b"0\n0\n", b"2 0\n", b"\x02\x02", b"18446744073709551615\n", b"0\n18446744073709551615\n1\n", b"2 3 2\n", b"c\n"];
     for _ in 0..rng.range(0, 3) { b.extend_from_slice(*rng.pick(body)); }
     b
+}
+
+/// How a line-source case walks through the sections: every item of every section (`stream`), no
+/// item at all (`skip`), or a mix: a random subset of the sections is read (completely, or at most
+/// the first 1..3 items of each), the others are left by calling the next transition right away.
+pub fn ls_mode(rng: &mut Rng) -> String {
+    match rng.below(8) {
+        0..=2 => "stream".into(),
+        3 => "skip".into(),
+        _ => {
+            let mask = match rng.below(4) {
+                // all but one section / one section only / anything
+                0 => 1023 & !(1u64 << rng.below(10)),
+                1 => 1u64 << rng.below(10),
+                _ => rng.below(1024),
+            };
+            if rng.chance(1, 3) { format!("m{}.{}", mask, rng.range(1, 3)) } else { format!("m{}", mask) }
+        }
+    }
 }
 
 /// One case line.  `opt` selects the family:
@@ -491,9 +716,83 @@ pub fn gen_case(rng: &mut Rng, opt: &str, thorough: bool) -> String {
         "corrupt" => {
             let mut c = circ.clone();
             if c.outputs.is_empty() { c.outputs.push(0); }
+            let variant = rng.below(6);
+            if variant == 0 && c.justice.len() < 2 {
+                // the sums variant wants several justice properties
+                while c.justice.len() < 2 + rng.below(2) as usize {
+                    let n = small(rng);
+                    let m = c.m;
+                    c.justice.push((0..n).map(|_| rand_lit(rng, m, &[])).collect());
+                }
+            }
             let r = render(rng, &c, bin, true);
-            let t = rng.pick(&r.toks);
             let mmax = (maxcode - 1) / 2;
+            if variant == 0 {
+                // several count tokens at once: numbers that are fine one by one and whose running
+                // sum crosses a limit (the sizes of the justice properties against `usize`, the
+                // header's I, L, A against M, any fields of the header).  Where the text must be
+                // refused follows from plain arithmetic on the numbers.
+                let k = rng.range(2, 3) as usize;
+                let js: Vec<usize> = (0..r.toks.len()).filter(|i| r.toks[*i].kind == TokKind::JusticeSize).collect();
+                let hs: Vec<usize> = (0..r.toks.len()).filter(|i| matches!(r.toks[*i].kind, TokKind::Header(_))).collect();
+                let num = |i: usize| -> u128 { std::str::from_utf8(&r.bytes[r.toks[i].off..r.toks[i].off + r.toks[i].len]).unwrap().parse().unwrap() };
+                let mut repl: Vec<(usize, u128)> = vec![]; // (token index, new value)
+                let mut bad: Option<usize> = None; // token index at which the text must be refused
+                if js.len() >= k && rng.chance(1, 2) {
+                    let at = rng.below((js.len() - k + 1) as u64) as usize;
+                    let t = wrap_tuple(rng, k, &[u64::MAX as u128]);
+                    for j in 0..k { repl.push((js[at + j], t[j])); }
+                    let mut total: u128 = 0;
+                    for i in &js {
+                        let v = repl.iter().find(|(ti, _)| ti == i).map(|(_, v)| *v).unwrap_or_else(|| num(*i));
+                        if total + v > u64::MAX as u128 { bad = Some(*i); break; }
+                        total += v;
+                    }
+                } else {
+                    let group: Vec<usize> = match rng.below(3) {
+                        0 => hs.iter().copied().filter(|i| matches!(r.toks[*i].kind, TokKind::Header(1) | TokKind::Header(2) | TokKind::Header(4))).collect(),
+                        1 => hs.iter().copied().filter(|i| !matches!(r.toks[*i].kind, TokKind::Header(0))).collect(),
+                        _ => hs.clone(),
+                    };
+                    let mut pick = group.clone();
+                    for i in (1..pick.len()).rev() { let j = rng.below(i as u64 + 1) as usize; pick.swap(i, j); }
+                    pick.truncate(k);
+                    let t = wrap_tuple(rng, pick.len().max(2), &[c.m as u128, c.m as u128, u64::MAX as u128, mmax as u128]);
+                    for (j, i) in pick.iter().enumerate() { repl.push((*i, t[j])); }
+                    let vals: Vec<u128> = hs.iter().map(|i| repl.iter().find(|(ti, _)| ti == i).map(|(_, v)| *v).unwrap_or_else(|| num(*i))).collect();
+                    bad = header_violation(&vals, mmax).map(|fi| hs[fi]);
+                }
+                let mut b = r.bytes.clone();
+                repl.sort();
+                for (i, v) in repl.iter().rev() {
+                    let t = &r.toks[*i];
+                    b.splice(t.off..t.off + t.len, v.to_string().into_bytes());
+                }
+                if let Some(bi) = bad {
+                    let t = &r.toks[bi];
+                    // replaced tokens in front of it on the same line move it
+                    let shift: isize = repl.iter().filter(|(i, _)| *i < bi && r.toks[*i].line == t.line)
+                        .map(|(i, v)| v.to_string().len() as isize - r.toks[*i].len as isize).sum();
+                    let len = repl.iter().find(|(i, _)| *i == bi).map(|(_, v)| v.to_string().len()).unwrap_or(t.len);
+                    case.tok = Some((t.line, (t.col as isize + shift) as usize, len));
+                }
+                case.data = b;
+                return case.line();
+            }
+            if variant == 1 {
+                // a junk token in place of a token: the text must be refused right there
+                let t = rng.pick(&r.toks);
+                let run = junk_run(rng);
+                let mut b = r.bytes.clone();
+                b.splice(t.off..t.off + t.len, run.clone());
+                case.data = b;
+                let structural = run[0].is_ascii_digit() || matches!(run[0], b' ' | b'\n' | b'\r' | b'\t');
+                if !matches!(t.kind, TokKind::Delta(_)) && !structural {
+                    case.tok = Some((t.line, t.col, 0));
+                }
+                return case.line();
+            }
+            let t = rng.pick(&r.toks);
             let old = &r.bytes[t.off..t.off + t.len];
             let ni = if bin { c.input_count } else { c.inputs.len() as u64 };
             let overflow = || b"99999999999999999999999".to_vec();
@@ -545,7 +844,7 @@ pub fn gen_case(rng: &mut Rng, opt: &str, thorough: bool) -> String {
             let r = render(rng, &circ, bin, false);
             case.data = if rng.chance(1, 4) { mutate(rng, r.bytes) } else { r.bytes };
             case.ls = true;
-            case.mode = "stream".into();
+            case.mode = ls_mode(rng);
             // one byte per read in a third of the cases: `@<delivered>` is then exactly how far
             // the parser looked
             if rng.chance(1, 3) { case.chunk = Some(1); }
@@ -999,10 +1298,13 @@ pub fn gen_scale(rng: &mut Rng, opt: &str, thorough: bool) -> String {
     let (bin, pdim) = if big_slot { (bbin, bdim) } else { ITEM_DIMS[(index * 7 + index / ITEM_DIMS.len()) % ITEM_DIMS.len()] };
     // big slots walk through the tail events and modes so that few of them cover all
     let tail: &str = if big_slot { tails[(st.big_slots * 3) % tails.len()] } else { *rng.pick(tails) };
-    let mut mode: &str = if tail == "ls" { "stream" } else if big_slot {
-        ["stream", "parse", "skip", "stream"][st.big_slots % 4]
+    let mut mode: String = if tail == "ls" {
+        // big slots: the fully streamed walk (the one that visits every item beyond the size)
+        if big_slot { "stream".into() } else { ls_mode(rng) }
+    } else if big_slot {
+        ["stream", "parse", "skip", "stream"][st.big_slots % 4].into()
     } else {
-        match rng.below(10) { 0..=2 => "parse", 3 | 4 => "skip", _ => "stream" }
+        match rng.below(10) { 0..=2 => "parse", 3 | 4 => "skip", _ => "stream" }.into()
     };
     if big_slot { st.big_slots += 1; }
     let target = if big_slot { room.max(avg) } else { avg / 2 };
@@ -1085,12 +1387,12 @@ pub fn gen_scale(rng: &mut Rng, opt: &str, thorough: bool) -> String {
     }
     // the whole-file model distributes justice literals in quadratic time: `parse` only for small
     // ones (the harness compares parse() with the independent reading for every valid case)
-    if mode == "parse" && (nj > 4096 || js > 4096) { mode = "stream"; }
+    if mode == "parse" && (nj > 4096 || js > 4096) { mode = "stream".into(); }
     let len = d.bytes.len();
 
     // ---- the tail event
     let mut case = Case {
-        fmt: if bin { "aig" } else { "aag" }.into(), ty: ty.into(), mode: mode.into(),
+        fmt: if bin { "aig" } else { "aag" }.into(), ty: ty.into(), mode,
         k: None, ls: false, data: vec![], expect: None, tok: None, w: 0,
         dtext: Some(d.field()), cut: None, post: None, chunk: None,
     };
